@@ -50,6 +50,7 @@ type connRec struct {
 }
 
 type collector struct {
+	smallRcv     bool
 	mu           sync.Mutex
 	ln           net.Listener
 	addr         string
@@ -85,6 +86,9 @@ func (c *collector) acceptLoop(ln net.Listener) {
 			return
 		}
 		c.mu.Lock()
+		if tc, ok := conn.(*net.TCPConn); ok && c.smallRcv {
+			tc.SetReadBuffer(64 << 10)
+		}
 		rec := &connRec{idx: len(c.conns), conn: conn}
 		if ta, ok := conn.RemoteAddr().(*net.TCPAddr); ok {
 			rec.rport = ta.Port
@@ -418,22 +422,25 @@ type sendEv struct {
 }
 
 type scenario struct {
-	kind       string
-	senders    int
-	perSender  int
-	gomax      int
-	useQueue   bool
-	queueSize  int
-	bg         bool // start the background drain goroutine
-	bigFrames  bool
-	schedule   []cut
-	singleton  bool
-	sendClear  bool
-	relicense  bool // change the client's default license between two phases of sends
-	poison     bool // now and then a sender hands over a pack whose Write panics half-way
-	batchDrain bool // queue mode without the background goroutine: the caller drains with SendAndClear()
-	spaced     bool // single sender, one cut: after the cut each send waits until the client's socket is seen dead (see clientSocketAlive)
-	idleMs     int  // direct mode: client Timeout set to idleMs, connection left idle for longer between two phases
+	kind        string
+	senders     int
+	perSender   int
+	gomax       int
+	useQueue    bool
+	queueSize   int
+	bg          bool // start the background drain goroutine
+	bigFrames   bool
+	schedule    []cut
+	singleton   bool
+	sendClear   bool
+	relicense   bool // change the client's default license between two phases of sends
+	poison      bool // now and then a sender hands over a pack whose Write panics half-way
+	batchDrain  bool // queue mode without the background goroutine: the caller drains with SendAndClear()
+	queueIdleMs int  // queue mode with the drain: the queue stays empty for this long between phases of sends (longer than the drain's own queue wait)
+	smallRcv    bool // the collector reads through a small socket receive buffer (writes of big frames block and are cut part-way)
+	hugeFrames  bool // frames of 3..7 MiB among the others
+	spaced      bool // single sender, one cut: after the cut each send waits until the client's socket is seen dead (see clientSocketAlive)
+	idleMs      int  // direct mode: client Timeout set to idleMs, connection left idle for longer between two phases
 }
 
 // poisonPack is a pack that cannot be encoded: its Write emits a few bytes and panics. Nothing
@@ -469,6 +476,9 @@ func mkPack(r *vlib.Rand, sender, seq int, big bool) (pack.Pack, int64) {
 	}
 	if big && r.Intn(3) == 0 {
 		n = r.Range(2*1024*1024-100, 2*1024*1024+70000) // around and above the 2 MiB write buffer
+		if hugeFrames && r.Bool() {
+			n = r.Range(3<<20, 7<<20) // larger than write buffer and socket buffers together
+		}
 	}
 	if r.Intn(3) == 0 {
 		p := pack.NewLogSinkPack()
@@ -507,12 +517,17 @@ var poisonSent int64
 func runScenario(c *vlib.Ctx, sc scenario, r *vlib.Rand, label string) {
 	old := runtime.GOMAXPROCS(sc.gomax)
 	defer runtime.GOMAXPROCS(old)
+	hugeFrames = sc.hugeFrames
+	defer func() { hugeFrames = false }()
 	col, err := newCollector(sc.schedule)
 	if err != nil {
 		c.Inconclusive(label, "cannot listen on loopback: "+err.Error())
 		return
 	}
 	defer col.close()
+	col.mu.Lock()
+	col.smallRcv = sc.smallRcv
+	col.mu.Unlock()
 	defLic := licenses[r.Intn(len(licenses))]
 	opts := []oneway.OneWayTcpClientOption{oneway.WithServers([]string{col.addr}), oneway.WithLicense(defLic), oneway.WithPcode(77), oneway.WithOid(5)}
 	if sc.useQueue {
@@ -592,7 +607,19 @@ func runScenario(c *vlib.Ctx, sc scenario, r *vlib.Rand, label string) {
 	if sc.relicense {
 		phases = [][2]int{{0, sc.perSender / 2}, {sc.perSender / 2, sc.perSender}}
 	}
+	if sc.queueIdleMs > 0 {
+		a, b := sc.perSender/3, 2*sc.perSender/3
+		phases = [][2]int{{0, a}, {a, b}, {b, sc.perSender}}
+	}
 	for pi, ph := range phases {
+		if pi > 0 && sc.queueIdleMs > 0 {
+			// let the drain goroutine sit through at least one full queue wait with nothing queued
+			for w := 0; w < 5000 && cl.Queue.Size() > 0; w++ {
+				time.Sleep(time.Millisecond)
+			}
+			time.Sleep(time.Duration(sc.queueIdleMs) * time.Millisecond)
+			c.Count("queue_idle_periods", 1)
+		}
 		if pi == 1 && sc.relicense {
 			// no send is in flight: the default license changes (what a configuration reload does)
 			cl.License = newLic
@@ -1074,6 +1101,9 @@ var gomaxes = []int{1, 2, 4, 16}
 
 var deadJudged int64
 
+// hugeFrames is set by the scenario being run (scenarios of one child run one after the other).
+var hugeFrames bool
+
 // frameSizes predicts the sizes of the frames sender 0 will send (same PRNG forks as runScenario).
 func cutPoints(r *vlib.Rand, i int) []cut {
 	// The header is 22 bytes. Small packs are 40..300 bytes. Enumerate: offset inside the first
@@ -1412,6 +1442,16 @@ func main() {
 			sch = append(sch, cut{After: r.Range(0, 6<<20), RST: r.Intn(3) != 0, Refuse: []int{0, 0, 1}[r.Intn(3)]})
 		}
 		runScenario(c, scenario{kind: "fault-big", senders: r.Range(1, 3), perSender: r.Range(4, 9), gomax: gomaxes[i%4], bigFrames: true, schedule: sch}, r, fmt.Sprint("fault-big#", i))
+	})
+	// the same with frames far beyond what write buffer and socket buffers hold, read by the
+	// collector through a small receive buffer: the write is cut part-way through a frame
+	c.Cases("fault-huge", scale(8, 120), func(i int, r *vlib.Rand) {
+		sch := []cut{{After: r.Range(0, 9<<20), RST: r.Intn(3) != 0, Refuse: 0}}
+		runScenario(c, scenario{kind: "fault-huge", senders: r.Range(1, 2), perSender: r.Range(3, 6), gomax: gomaxes[i%4], bigFrames: true, hugeFrames: true, smallRcv: true, schedule: sch}, r, fmt.Sprint("fault-huge#", i))
+	})
+	// queue mode with the drain, and idle periods longer than the drain's own queue wait (5 s)
+	c.Cases("queue-idle", scale(3, 24), func(i int, r *vlib.Rand) {
+		runScenario(c, scenario{kind: "queue-idle", senders: r.Range(1, 3), perSender: r.Range(9, 18), gomax: gomaxes[i%4], useQueue: true, queueSize: 0, bg: true, queueIdleMs: 5600}, r, fmt.Sprint("queue-idle#", i))
 	})
 	c.Cases("queue-fault-big", scale(6, 100), func(i int, r *vlib.Rand) {
 		sch := []cut{{After: r.Range(0, 6<<20), RST: r.Bool(), Refuse: 0}}
